@@ -80,7 +80,8 @@ dump(impl_t& g, const tables& t)
 FSV_API int
 fsv_snapshot(const uint64_t* rec, const uint64_t* rcount, const double* rdist, const double* rweight, const uint64_t* donors,
              const uint64_t* dcount, const uint64_t* dfs, const uint64_t* bfs, const uint64_t* levels, uint64_t nlevels,
-             const uint8_t* mask, int use_mask, const uint64_t* bl, uint64_t nbl, const double* elev,
+             const uint8_t* mask, int use_mask, const uint64_t* bl, uint64_t nbl, const double* elev, int rounds, const uint8_t* mask2,
+             const uint64_t* dfs2, const double* elev2,
              uint64_t* o_rec, uint64_t* o_rcount, double* o_rdist, double* o_rweight, uint64_t* o_donors, uint64_t* o_dcount,
              uint64_t* o_dfs, uint64_t* o_bfs, uint64_t* o_levels, uint64_t* o_nlevels, uint8_t* o_mask, uint8_t* o_base, double* o_elev)
 {
@@ -123,6 +124,20 @@ fsv_snapshot(const uint64_t* rec, const uint64_t* rcount, const double* rdist, c
         snap_impl_t op(std::make_shared<fs::flow_snapshot>("s", true, true));
         op._save(src, snap);
         op._save(e, es);
+        if (rounds == 2)
+        {
+            // a later update of the source graph (other mask, other bottom-up order, other elevation): the next save replaces the snapshot
+            xt::xarray<bool> m2 = xt::zeros<bool>({ (size_t) FSV_N });
+            for (int i = 0; i < FSV_N; i++)
+            {
+                m2.flat(i) = mask2[i] != 0;
+                src.m_dfs_indices(i) = dfs2[i];
+                e.flat(i) = elev2[i];
+            }
+            src.set_mask(m2);
+            op._save(src, snap);
+            op._save(e, es);
+        }
         tables t{ o_rec, o_rcount, o_rdist, o_rweight, o_donors, o_dcount, o_dfs, o_bfs, o_levels, o_nlevels, o_mask, o_base };
         dump(snap, t);
         for (int i = 0; i < FSV_N; i++)
